@@ -152,6 +152,7 @@ func TestC15(t *testing.T) {
 		var hist []string
 		note := func(f string, a ...interface{}) { hist = append(hist, fmt.Sprintf(f, a...)) }
 		validVerified, mutationsChecked, republish, storedAtLinkKey, linkAtStorageKey, timePassed := 0, 0, 0, 0, 0, 0
+		discardedPublishes := 0
 
 		checkLinks := func(what string) {
 			for key, want := range modelLinks {
@@ -217,6 +218,17 @@ func TestC15(t *testing.T) {
 				}
 				val := links[rapid.IntRange(0, len(links)-1).Draw(t, "link")]
 				_, existed := modelLinks[key]
+				if rapid.IntRange(0, 2).Draw(t, "discardedPublishFirst") == 0 {
+					// a publish of another link under the same key is executed first and thrown away: a simulation
+					// (gas estimation), or a transaction whose later message fails.  It never happened.
+					other := links[(rapid.IntRange(0, len(links)-1).Draw(t, "discardedLink")+1)%len(links)]
+					branch := *v
+					branch.Ctx, _ = v.Ctx.CacheContext()
+					if r, _ := RunSigMsg(&branch, &sigtypes.MsgPublishReferencePayloadLink{Creator: KeyAcc(2).Addr.String(), Key: key, Value: other}); r.OK() {
+						discardedPublishes++
+						note("publish key=%.16s value=%q executed and discarded", key, other)
+					}
+				}
 				res, _ := RunSigMsg(v, &sigtypes.MsgPublishReferencePayloadLink{Creator: KeyAcc(1).Addr.String(), Key: key, Value: val})
 				note("publish key=%.16s value=%q existed=%v ok=%v err=%v", key, val, existed, res.OK(), errStr(res))
 				if existed {
@@ -322,6 +334,9 @@ func TestC15(t *testing.T) {
 		}
 		if storedAtLinkKey > 0 || linkAtStorageKey > 0 {
 			cl = append(cl, "link_and_signature_keys_coincide")
+		}
+		if discardedPublishes > 0 {
+			cl = append(cl, "publish_executed_and_discarded_before_the_real_one")
 		}
 		if republish > 0 {
 			cl = append(cl, "republish_attempted")
